@@ -1,0 +1,50 @@
+//go:build verif
+
+package emulate
+
+import (
+	"mltwist/internal/consoleui"
+	"mltwist/internal/consoleui/internal/view"
+	"mltwist/internal/emulator"
+	"mltwist/internal/state"
+	"mltwist/pkg/expr"
+)
+
+// This file is compiled only with the verif build tag and serves the external
+// verification harness.
+
+// VerifReadValue forwards to readValue.
+func VerifReadValue(w expr.Width) (expr.Const, error) { return readValue(w) }
+
+// VerifView makes an internal view usable from outside.
+type VerifView struct {
+	v view.View
+}
+
+func (v VerifView) MinLines() int     { return v.v.MinLines() }
+func (v VerifView) MaxLines() int     { return v.v.MaxLines() }
+func (v VerifView) Print(n int) error { return v.v.Print(n) }
+
+// VerifNewRegView creates register view of state st.
+func VerifNewRegView(st *state.State) VerifView { return VerifView{v: newRegView(st)} }
+
+// VerifModeView returns the view of an emulation mode.
+func VerifModeView(m consoleui.Mode) (VerifView, bool) {
+	e, ok := m.(*mode)
+	if !ok {
+		return VerifView{}, false
+	}
+
+	return VerifView{v: e.view}, true
+}
+
+// VerifEmulator returns the emulator and the listing cursor of an emulation
+// mode.
+func VerifEmulator(m consoleui.Mode) (*emulator.Emulator, int, bool) {
+	e, ok := m.(*mode)
+	if !ok {
+		return nil, 0, false
+	}
+
+	return e.emul, e.lineView.Cursor.Value(), true
+}
